@@ -17,6 +17,9 @@ type EnumOpts struct {
 	NValues int
 	// Sibling forces the sibling converter with enum handling off whenever the case admits one.
 	Sibling bool
+	// Multi turns a prefix-transformed case into one whose transformer pattern matches SEVERAL times inside every
+	// member name (Col_or_Red -> ColorRed through `_(\w)` -> `$1`): all matches are replaced.
+	Multi bool
 }
 
 type enumMember struct {
@@ -101,6 +104,11 @@ func EnumCase(r *rand.Rand, name string, o EnumOpts) (*Case, string) {
 			}
 		}
 	}
+	multi := false
+	if o.Multi && nameMode == "prefix" && unexported == "" && sp == "Color" {
+		multi = true
+		sp, tp = "Col_or_", "Color"
+	}
 	n := 2 + r.Intn(4)
 	var sm, tm []enumMember
 	for i := 0; i < n; i++ {
@@ -147,9 +155,13 @@ func EnumCase(r *rand.Rand, name string, o EnumOpts) (*Case, string) {
 	var transforms [][2]string
 	mustFail := ""
 	if nameMode == "prefix" {
-		pat := "^" + sp + "(\\w+)$"
-		transforms = append(transforms, [2]string{pat, tp + "$1"})
-		methLines = append(methLines, "enum:transform regex "+pat+" "+tp+"$1")
+		pat, repl := "^"+sp+"(\\w+)$", tp+"$1"
+		if multi {
+			pat, repl = "_(\\w)", "$1"
+			c.Feature("multimatch", "true")
+		}
+		transforms = append(transforms, [2]string{pat, repl})
+		methLines = append(methLines, "enum:transform regex "+pat+" "+repl)
 	}
 	if nameMode == "custom" {
 		transforms = append(transforms, [2]string{"^" + sp, ""})
@@ -304,6 +316,9 @@ func EnumCase(r *rand.Rand, name string, o EnumOpts) (*Case, string) {
 		c.Feature("format", o.Format)
 		return c, ""
 	}
+	// two exclude lines none of which names KA or KB: one has their package and another type name, the other has their
+	// type name and another package (a line is a PACKAGE:NAME pair, lines are alternatives)
+	convLines = append(convLines, "enum:exclude "+c.Root+"/ea:Nothing", "enum:exclude "+c.Root+"/eb:Nothing", "enum:exclude "+c.Root+"/nosuchpkg:KA", "enum:exclude "+c.Root+"/nosuchpkg:KB")
 	cv := &Converter{Pkg: conv, File: "conv.go", Name: "Converter", Format: o.Format, Lines: convLines, OutPkgPath: "conv/generated", OutPkgName: "generated", ImplName: "ConverterImpl"}
 	if o.Format == "variables" {
 		cv.OutPkgPath, cv.OutPkgName = "conv", "conv"
